@@ -21,10 +21,14 @@ CLAIMED = {
           "DESIGN.md 7 C01", "Lean 4 proof over a hand-written model + differential correspondence (dr probe)",
           "reader exercised as a component over bufio; its use inside a live conversation is covered by the conv probe of C02"),
  "C02": C("C02_only_marker proved in both directions (the reader reaches EOF exactly on terminated streams), C02_eof_means_marker for every "
-          "input, limit and schedule; conversation level: bait/marker monitor on real conversations (DATA bodies with look-alikes x backend "
-          "behaviours x limits x SMTP/LMTP) and correspondence with the server model.",
-          "DESIGN.md 7 C02", "Lean 4 proof (reader) + monitors and differential correspondence (dr, conv probes)",
-          "the resumption theorem on the wire model (C02_resume) is not yet proved; resumption is tied by the conv correspondence"),
+          "input, limit and schedule; C02_resume on the server + wire model (bufio, line limiter, segmented source): for every backend behaviour, "
+          "limit, mode and segmentation the stream the command loop reads after the DATA handler starts exactly behind the marker (or the "
+          "connection executes no further command: C02_resume_escapes); conversation level: bait/marker/resume monitors on real conversations "
+          "(DATA bodies with look-alikes x backend behaviours x limits x SMTP/LMTP) and correspondence with the server model.",
+          "DESIGN.md 7 C02", "Lean 4 proof (reader, server+wire model) + monitors and differential correspondence (dr, conv probes)",
+          "C02_resume is stated for the synchronous delivery of the model (the LMTPSession goroutine's interleavings are sequentialised, "
+          "tied by the conv/sched probes); its hypothesis WF (non-empty segments, errors latched only at the end of the source) is assumed "
+          "of the wire at DATA time, not yet proved as a whole-connection invariant"),
  "C03": C("Proved: order_accepts_every_connection / C03_order - for EVERY input octet stream in EVERY segmentation, EVERY backend script "
           "(acceptances, refusals, errors, panics, early returns, SASL scripts, handshake outcomes) and EVERY configuration, the complete "
           "backend-visible trace of a connection of the server model (greeting, command loop, all handlers incl. DATA, BDAT, AUTH, STARTTLS, "
